@@ -21,7 +21,9 @@ FUEL = 400
 RULE = ("flow: signal graphs as in C02 (forward run/accumulate edges over 2-7 nodes, optional If branch, `failed` handlers) "
         "whose functions raise on a negative argument; negative constants make 1-3 nodes fail, incl. starting nodes; dag: "
         "random DAGs 2-9 nodes with 1-2 failing nodes, every node independently on the manual executor, optionally one "
-        "nested macro with a failing child. Non-trivial: at least one node failed AND at least one other node ran; distinct by content.")
+        "nested macro with a failing child; free: the flow graphs again with parentless nodes (signals delivered depth first, every "
+        "starting node run in turn by the caller; oracle only); argument -5/-7/-8/-9 raise AttributeError/ReadinessError/"
+        "IndexError/KeyError subclasses. Non-trivial: at least one node failed AND at least one other node ran; distinct by content.")
 TRUSTED = ["harness ManualExecutor and replacement of composite.sleep as the completion schedule (dag family)"]
 ASSUMPTIONS = ["the failing function is deterministic (raises iff an argument is negative)",
                "executor callbacks are atomic events; real thread timing is not exhibited"]
@@ -238,6 +240,117 @@ def flow_oracle(case, o):
         by_acc = bool(acc_src) and all(emitted(i, s) for i, s in acc_src)
         legit = by_run or by_acc
         if not legit:
+            return f"ran-after-failure: n{m} executed although nothing that could trigger it completed"
+    return None
+
+
+# =========================================================================== free family (hand-wired flow without any parent)
+def gen_free(rng):
+    c = gen_flow(rng)
+    return {"fam": "free", "nodes": c["nodes"], "starting": c["starting"], "suppress": False}
+
+
+def _build_free(case, healthy):
+    ch = []
+    for i, nd in enumerate(case["nodes"]):
+        kw = {"tag": i, "k": nd["kind"][1]}
+        for j, inp in enumerate(nd["ins"]):
+            if inp["init"] is not None:
+                kw[nodes.ARG[j]] = abs(inp["init"]) if healthy else inp["init"]
+        node = CHK[len(nd["ins"])](label=f"n{i}", **kw)
+        node.recovery = None
+        node.use_cache = False
+        ch.append(node)
+    for i, nd in enumerate(case["nodes"]):
+        for j, inp in enumerate(nd["ins"]):
+            for u in reversed(inp["conns"]):
+                ch[i].inputs[nodes.ARG[j]].connect(ch[u].outputs.y)
+        for sname, lst in nd["sig"].items():
+            out = ch[i].signals.output[sname]
+            for (m, mode) in reversed(lst):
+                out.connect(ch[m].signals.input.run if mode == "run" else ch[m].signals.input.accumulate_and_run)
+    return ch
+
+
+def run_free(case):
+    """the same hand-wired graph as the flow family, but the nodes have no parent: signals are delivered by direct calls
+    (depth first), and the caller of the outermost run is whoever runs a starting node.  Every starting node is run in turn.
+    A healthy copy of the graph (same labels, no failing argument) is run to the end first and thrown away: what one flow
+    heard must not count for another."""
+    from pyiron_workflow.mixin.run import ReadinessError
+    nodes.reset()
+    old = _signal.signal(_signal.SIGALRM, _alarm)
+    _signal.alarm(10)
+    try:
+        pre = _build_free(case, True)
+        for st in case["starting"]:
+            try:
+                pre[st].run()
+            except (Exception, _Timeout):
+                pass
+    finally:
+        _signal.alarm(0)
+        _signal.signal(_signal.SIGALRM, old)
+    nodes.reset()
+    ch = _build_free(case, False)
+    old = _signal.signal(_signal.SIGALRM, _alarm)
+    _signal.alarm(10)
+    runs = []
+    try:
+        for st in case["starting"]:
+            n0 = len(nodes.CALLS)
+            try:
+                ch[st].run()
+                v = "ok"
+            except nodes.UserExc as e:
+                v = ["UserExc", e.tag]
+            except ReadinessError:
+                v = ["Readiness"]
+            except _Timeout:
+                return "timeout"
+            except RecursionError:
+                v = ["Recursion"]
+            calls = nodes.CALLS[n0:]
+            runs.append({"start": st, "verdict": v, "called": [t for t, a in calls],
+                         "raised": [t for t, a in calls if any(x < 0 for x in a)]})
+    except _Timeout:
+        return "timeout"
+    finally:
+        _signal.alarm(0)
+        _signal.signal(_signal.SIGALRM, old)
+    return {"runs": runs, "outs": [_slot(c.outputs.y.value) for c in ch], "failed": [bool(c.failed) for c in ch],
+            "running": [bool(c.running) for c in ch], "verdict": "free",
+            "raised": sorted({t for r in runs for t in r["raised"]}), "prov": [t for r in runs for t in r["called"]]}
+
+
+def free_oracle(case, o):
+    if o == "timeout":
+        return "diverges: run did not terminate"
+    ns = case["nodes"]
+    failed = [i for i, f in enumerate(o["failed"]) if f]
+    if any(o["running"]):
+        return "left-running: a node is still running after the run ended"
+    if o["raised"] != failed:
+        return f"wrong-failed-flags: functions of {o['raised']} raised but nodes {failed} are marked failed"
+    for i in failed:
+        if o["outs"][i] != "nd":
+            return f"output-changed: failing node n{i} has output {o['outs'][i]} although it never completed"
+    for r in o["runs"]:
+        if r["raised"] and r["verdict"] == "ok":
+            return f"swallowed: the function of n{r['raised'][0]} raised but the outermost run (of n{r['start']}) returned normally"
+        if r["verdict"] != "ok" and r["verdict"][0] == "UserExc" and r["verdict"][1] not in r["raised"]:
+            return "wrong-exception: the propagated exception is not a failing node's"
+    called = o["prov"]
+    ok_nodes = [i for i in called if i not in failed]
+    for m in set(called):
+        direct = sum(1 for r in o["runs"] if r["start"] == m)
+        if called.count(m) <= direct:
+            continue
+        emitted = lambda i, s: (s == "failed" and i in failed) or (s != "failed" and i in ok_nodes)     # noqa: E731
+        by_run = any(t == [m, "run"] and emitted(i, s) for i, nd in enumerate(ns) for s, lst in nd["sig"].items() for t in lst)
+        acc_src = [(i, s) for i, nd in enumerate(ns) for s, lst in nd["sig"].items() for t in lst if t == [m, "acc"]]
+        by_acc = bool(acc_src) and all(emitted(i, s) for i, s in acc_src)
+        if not (by_run or by_acc):
             return f"ran-after-failure: n{m} executed although nothing that could trigger it completed"
     return None
 
@@ -511,6 +624,7 @@ def iffail_oracle(case, o):
 def generate(ctx):
     rng = ctx.rng
     out = [gen_flow(rng) for _ in range(ctx.n(450, 5000))] + [gen_dag(rng) for _ in range(ctx.n(300, 4000))]
+    out += [gen_free(rng) for _ in range(ctx.n(150, 1500))]
     for _ in range(ctx.n(12, 60)):
         out.append({"fam": "iffail", "xs": [rng.choice([0, 1, 5, -1, -1]) for _ in range(rng.randint(1, 5))], "suppress": False})
     return out
@@ -527,6 +641,8 @@ def corpus(ctx):
 def run_impl(case):
     if case["fam"] == "iffail":
         return run_iffail(case)
+    if case["fam"] == "free":
+        return run_free(case)
     return run_flow(case) if case["fam"] == "flow" else run_dag(case)
 
 
@@ -550,6 +666,8 @@ def oracle(case, obs):
         return f"crash: {obs}"
     if case["fam"] == "iffail":
         return iffail_oracle(case, obs)
+    if case["fam"] == "free":
+        return free_oracle(case, obs)
     return flow_oracle(case, obs) if case["fam"] == "flow" else dag_oracle(case, obs)
 
 
@@ -570,7 +688,7 @@ def nontrivial(case, obs):
         return False
     if case["fam"] == "iffail":
         return any(x < 0 for x in case["xs"]) and any(x >= 0 for x in case["xs"])
-    if case["fam"] == "flow":
+    if case["fam"] in ("flow", "free"):
         return any(obs["failed"]) and len(obs["prov"]) >= 2
     return bool(obs["raised"]) and len(obs["called"]) >= 2
 
@@ -584,7 +702,7 @@ def shrink_candidates(case):
         for i in range(len(case["xs"])):
             yield dict(case, xs=case["xs"][:i] + case["xs"][i + 1:])
         return
-    if case["fam"] == "flow":
+    if case["fam"] in ("flow", "free"):
         ns = case["nodes"]
         for i, nd in enumerate(ns):
             for s, lst in nd["sig"].items():
@@ -594,6 +712,9 @@ def shrink_candidates(case):
                     yield dict(case, nodes=new)
         if case["suppress"]:
             yield dict(case, suppress=False)
+        if len(case["starting"]) > 1:
+            for i in range(len(case["starting"])):
+                yield dict(case, starting=case["starting"][:i] + case["starting"][i + 1:])
     else:
         if case["macro"]:
             yield dict(case, macro=None)
@@ -605,7 +726,7 @@ def shrink_candidates(case):
 
 
 def distribution(results):
-    d = {"flow": 0, "dag": 0, "iffail": 0, "suppressed": 0, "verdicts": {}, "failing_nodes": 0, "executor_failures": 0, "macro_failures": 0}
+    d = {"flow": 0, "dag": 0, "iffail": 0, "free": 0, "suppressed": 0, "verdicts": {}, "failing_nodes": 0, "executor_failures": 0, "macro_failures": 0}
     for c, enc, v, o in results:
         d[c["fam"]] += 1
         d["suppressed"] += bool(c["suppress"])
@@ -613,6 +734,8 @@ def distribution(results):
             continue
         if isinstance(o, dict):
             k = o["verdict"] if isinstance(o["verdict"], str) else o["verdict"][0]
+            if c["fam"] == "free":
+                k = "free:" + ",".join(sorted({r["verdict"] if isinstance(r["verdict"], str) else r["verdict"][0] for r in o["runs"]}))
             d["verdicts"][k] = d["verdicts"].get(k, 0) + 1
             d["failing_nodes"] += len(o["raised"])
             if c["fam"] == "dag":
